@@ -234,6 +234,7 @@ func init() {
 		})
 
 		c.Group("C01/save-before-advance", "(shared with C02) order across restarts and hand-overs rests on the stored window: memory never advances past a window that was not stored first", func() { ruleSaveBeforeAdvance(c) })
+		c.Group("C01/overflow-carry", "(shared with C05) the global estimate's logical part is set back only together with an advance of its physical part", func() { ruleOverflowCarry(c) })
 		c.Group("C01/window-txn", "(shared with C02/C03) the window is written by one leader-guarded transaction and remembered only when applied", func() { ruleSaveTimestampShape(c) })
 		c.Group("C01/client", "client-side batch expansion: response count must equal the batch size; the first logical is derived with the same suffix-aware shift used to fan out; the fallback detector panics on tsLessEqual and otherwise stores the new highest", func() {
 			proc := P.Method("client", "client", "processTSORequests")
